@@ -203,10 +203,16 @@ package analysis
 
 //@ func hoverOnSource
 //@   requires [node] source == nil || ewf(source)
+//@   let ino = as(source, *parser.SourceInorder)
+//@   let m0 = as(ino.Sources[0], *parser.SourceAccount)
+//@   let q0 = typeis(source, *parser.SourceInorder) && len(ino.Sources) > 0 && typeis(ino.Sources[0], *parser.SourceAccount) && typeis(m0.ValueExpr, *parser.Variable) && rangeHas(ino.Range, position) && rangeHas(as(m0.ValueExpr, *parser.Variable).Range, position)
+//@   ensures [account-variable-under-cursor] {C19} typeis(source, *parser.SourceAccount) && typeis(as(source, *parser.SourceAccount).ValueExpr, *parser.Variable) && rangeHas(as(as(source, *parser.SourceAccount).ValueExpr, *parser.Variable).Range, position) ==> typeis(result, *VariableHover) && as(result, *VariableHover).Node == as(as(source, *parser.SourceAccount).ValueExpr, *parser.Variable)
+//@   ensures [first-member-variable-under-cursor] {C19} q0 ==> typeis(result, *VariableHover) && as(result, *VariableHover).Node == as(m0.ValueExpr, *parser.Variable)
 //@   ensures [node-or-nil] absent(result) ==> result == nil
 //@   modifies nothing
 //@   loop 1
 //@     invariant [node] ewf(source)
+//@     invariant [first-member-not-passed] iter == 0 || !q0
 //@   loop 2
 //@     invariant [node] ewf(source)
 
